@@ -230,4 +230,46 @@ mod verif_k {
             } else { assert!(r.is_err()); }   // an escape that cannot complete within the value
         }
     }
+
+    // one step up the grammar, fixed shapes (thorough tier): `a=v` / `a>=v` with symbolic attribute and value bytes
+    fn os_is(t: &Tag, want: &[u8]) -> bool {
+        match t { Tag::OctetString(o) => o.inner.len() == want.len() && (want.len() == 0 || o.inner[0] == want[0]) && (want.len() < 2 || o.inner[1] == want[1]), _ => false }
+    }
+    #[kani::proof]
+    #[kani::unwind(6)]
+    fn eq_item_a_eq_v() {
+        let a: u8 = kani::any();
+        let v: u8 = kani::any();
+        kani::assume(is_alpha(a));
+        kani::assume(!(v == 0 || v == b'(' || v == b')' || v == b'*' || v == b'\\'));
+        let inp = [a, b'=', v];
+        match eq(&inp[..]) {
+            Ok((rest, Tag::Sequence(s))) => {
+                assert!(rest.len() == 0);
+                assert!(s.class == TagClass::Context && s.id == 3 && s.inner.len() == 2);   // equalityMatch [3]
+                assert!(os_is(&s.inner[0], &[a]) && os_is(&s.inner[1], &[v]));
+            }
+            _ => { assert!(false); }
+        }
+    }
+    #[kani::proof]
+    #[kani::unwind(6)]
+    fn non_eq_item_a_op_v() {
+        let a: u8 = kani::any();
+        let v: u8 = kani::any();
+        let op: u8 = kani::any();
+        kani::assume(is_alpha(a));
+        kani::assume(op == b'>' || op == b'<' || op == b'~');
+        kani::assume(!(v == 0 || v == b'(' || v == b')' || v == b'*' || v == b'\\'));
+        let inp = [a, op, b'=', v];
+        match non_eq(&inp[..]) {
+            Ok((rest, Tag::Sequence(s))) => {
+                assert!(rest.len() == 0);
+                assert!(s.class == TagClass::Context && s.inner.len() == 2);
+                assert!(s.id == if op == b'>' { 5 } else if op == b'<' { 6 } else { 8 });
+                assert!(os_is(&s.inner[0], &[a]) && os_is(&s.inner[1], &[v]));
+            }
+            _ => { assert!(false); }
+        }
+    }
 }
